@@ -134,25 +134,17 @@ def _get_function_results(  # noqa: PLR0913
     if transforms is not None and transforms.variables:
         variables = transforms.variables.from_optimizer(variables)
     evaluator_result = evaluator(np.repeat(variables, realization_num, axis=0), context)
+    # The result object belongs to the evaluator, it is not modified:
+    objectives = evaluator_result.objectives
+    constraints = evaluator_result.constraints
     if transforms is not None:
         if transforms.objectives is not None:
-            evaluator_result.objectives = transforms.objectives.to_optimizer(
-                evaluator_result.objectives
-            )
-        if (
-            evaluator_result.constraints is not None
-            and transforms.nonlinear_constraints is not None
-        ):
-            evaluator_result.constraints = (
-                transforms.nonlinear_constraints.to_optimizer(
-                    evaluator_result.constraints
-                )
-            )
-    split_objectives = np.vsplit(evaluator_result.objectives, variables.shape[0])
+            objectives = transforms.objectives.to_optimizer(objectives)
+        if constraints is not None and transforms.nonlinear_constraints is not None:
+            constraints = transforms.nonlinear_constraints.to_optimizer(constraints)
+    split_objectives = np.vsplit(objectives, variables.shape[0])
     split_constraints = (
-        []
-        if evaluator_result.constraints is None
-        else np.vsplit(evaluator_result.constraints, variables.shape[0])
+        [] if constraints is None else np.vsplit(constraints, variables.shape[0])
     )
     split_infos = {
         key: np.split(value, variables.shape[0])
@@ -193,24 +185,18 @@ def _get_gradient_results(  # noqa: PLR0913
     if transforms is not None and transforms.variables:
         variables = transforms.variables.from_optimizer(variables)
     evaluator_result = evaluator(variables, context)
+    # The result object belongs to the evaluator, it is not modified:
+    objectives = evaluator_result.objectives
+    constraints = evaluator_result.constraints
     if transforms is not None:
         if transforms.objectives is not None:
-            evaluator_result.objectives = transforms.objectives.to_optimizer(
-                evaluator_result.objectives
-            )
-        if (
-            evaluator_result.constraints is not None
-            and transforms.nonlinear_constraints is not None
-        ):
-            evaluator_result.constraints = (
-                transforms.nonlinear_constraints.to_optimizer(
-                    evaluator_result.constraints
-                )
-            )
+            objectives = transforms.objectives.to_optimizer(objectives)
+        if constraints is not None and transforms.nonlinear_constraints is not None:
+            constraints = transforms.nonlinear_constraints.to_optimizer(constraints)
     return _GradientEvaluatorResults(
         batch_id=evaluator_result.batch_id,
-        perturbed_objectives=evaluator_result.objectives,
-        perturbed_constraints=evaluator_result.constraints,
+        perturbed_objectives=objectives,
+        perturbed_constraints=constraints,
         evaluation_info=evaluator_result.evaluation_info,
         realization_count=config.realizations.weights.size,
         perturbation_count=config.gradient.number_of_perturbations,
@@ -255,29 +241,19 @@ def _get_function_and_gradient_results(  # noqa: PLR0913
     if transforms is not None and transforms.variables:
         all_variables = transforms.variables.from_optimizer(all_variables)
     evaluator_result = evaluator(all_variables, context)
+    # The result object belongs to the evaluator, it is not modified:
+    objectives = evaluator_result.objectives
+    constraints = evaluator_result.constraints
     if transforms is not None:
         if transforms.objectives is not None:
-            evaluator_result.objectives = transforms.objectives.to_optimizer(
-                evaluator_result.objectives
-            )
-        if (
-            evaluator_result.constraints is not None
-            and transforms.nonlinear_constraints is not None
-        ):
-            evaluator_result.constraints = (
-                transforms.nonlinear_constraints.to_optimizer(
-                    evaluator_result.constraints
-                )
-            )
+            objectives = transforms.objectives.to_optimizer(objectives)
+        if constraints is not None and transforms.nonlinear_constraints is not None:
+            constraints = transforms.nonlinear_constraints.to_optimizer(constraints)
     return (
         _FunctionEvaluatorResults(
             batch_id=evaluator_result.batch_id,
-            objectives=evaluator_result.objectives[:realization_num],
-            constraints=(
-                None
-                if evaluator_result.constraints is None
-                else evaluator_result.constraints[:realization_num]
-            ),
+            objectives=objectives[:realization_num],
+            constraints=(None if constraints is None else constraints[:realization_num]),
             evaluation_info={
                 key: value[:realization_num]
                 for key, value in evaluator_result.evaluation_info.items()
@@ -285,11 +261,9 @@ def _get_function_and_gradient_results(  # noqa: PLR0913
         ),
         _GradientEvaluatorResults(
             batch_id=evaluator_result.batch_id,
-            perturbed_objectives=evaluator_result.objectives[realization_num:, :],
+            perturbed_objectives=objectives[realization_num:, :],
             perturbed_constraints=(
-                None
-                if evaluator_result.constraints is None
-                else evaluator_result.constraints[realization_num:, :]
+                None if constraints is None else constraints[realization_num:, :]
             ),
             evaluation_info={
                 key: value[realization_num:]
